@@ -256,7 +256,7 @@ _WORLDS = []
 class World:
     """One interpreter with the whole-program model switched on."""
 
-    def __init__(self, repo, lib=None, mpi_size=1, max_steps=3_000_000_000, extra=None, round_digits=None):
+    def __init__(self, repo, lib=None, mpi_size=1, max_steps=3_000_000_000, extra=None, round_digits=None, approx_roots=False):
         from .elems import ElemLib
         from .femodel import Model
 
@@ -276,7 +276,10 @@ class World:
         # accuracy).  For staggered / incremental scenarios only: the size of exact rationals otherwise squares at every
         # step.  The statements decided with it are inequalities with a margin far above 10^-n.
         self.round_digits = round_digits
-        if round_digits is not None:
+        if round_digits is not None and approx_roots:
+            # approx_roots: square roots that are not rational, eigen-decompositions and dense solves are rounded too (a
+            # material-point integration takes roots of running values; Kelvin-Mandel factors such as sqrt(2) then stop
+            # being exact surds, which makes every later number long - hence opt-in per scenario)
             from . import xeval as _xe
 
             _xe.APPROX_SQRT_DIGITS = 2 * round_digits  # (scenarios run in forked workers: the switch stays in this process)
@@ -472,6 +475,10 @@ def _run_one(k):
 
 def _run_one_inner(k):
     label, anchor, thunk = _SCEN[k]
+    import os as _os, sys as _sys, time as _time
+
+    if _os.environ.get("VERIF_E2E_TRACE"):
+        print(f"[e2e] start {label} at {_time.strftime('%H:%M:%S')}", file=_sys.stderr, flush=True)
     try:
         msg = thunk()
     except Undecided as e:
